@@ -247,17 +247,19 @@ def replay_tlc_behaviours(ctx, rng):
 def last_record_without_newline(ctx, rng):
     """Inputs whose last record is not followed by a newline (legal FASTQ), with buffer sizes of a few records:
     the last chunk then sometimes consists of that record alone."""
-    n_inputs = 2 if ctx.quick else 12
+    n_inputs = 4 if ctx.quick else 12
     runs = 0
     for k in range(n_inputs):
         paired = k % 2 == 0
         reads, reads2 = make_reads(rng, rng.randint(8, 16), paired)
         d1 = fastq_bytes(reads)
-        inputs = {"in1.fastq": d1[:-1] if (not paired or rng.random() < 0.5) else d1}
+        # paired inputs in turn: the newline is missing in R2 only, in R1 only, in both files
+        which = ("r2", "r1", "both")[(k // 2) % 3]
+        inputs = {"in1.fastq": d1[:-1] if (not paired or which in ("r1", "both")) else d1}
         infiles = ["in1.fastq"]
         if paired:
             d2 = fastq_bytes(reads2)
-            inputs["in2.fastq"] = d2[:-1] if inputs["in1.fastq"] == d1 or rng.random() < 0.5 else d2
+            inputs["in2.fastq"] = d2[:-1] if which in ("r2", "both") else d2
             infiles.append("in2.fastq")
         opts = ["-a", AD1] + (["-A", AD2, "-o", "o1.fastq", "-p", "o2.fastq"] if paired else ["-o", "out.fastq"])
         base = opts + ["--json", "rep.json"] + infiles
